@@ -31,7 +31,7 @@ func TestZsimC12KV(t *testing.T) {
 		Run:      c12kvRun,
 		Horizon:  time.Hour,
 		MaxSteps: 400000,
-		Rule:     "the same random single-key command history (methods of kv.Store found by reflection, typed key pools, generated members/scores) is issued to a kv.Store over 1-3 weighted shards and to the Redis wrapper over one reference server; results compared after every command, the union of the shards' keyspaces with the reference keyspace at the end; multi-key Del included; non-trivial = keys ended up on at least two shards; distinct = distinct event-log fingerprint",
+		Rule:     "the same random single-key command history (methods of kv.Store found by reflection, typed key pools, generated members/scores) is issued to a kv.Store over 1-3 weighted shards and to the Redis wrapper over one reference server; results compared after every command, the union of the shards' keyspaces with the reference keyspace at the end; multi-key Del included, also with one shard refusing its DEL (the other shards' keys must go all the same); non-trivial = keys ended up on at least two shards; distinct = distinct event-log fingerprint",
 		Real:     []string{"lib/store/kv kvStore (all Store methods by reflection)", "lib/hash.ConsistentHash", "lib/store/redis wrapper", "go-redis", "miniredis (1-3 shards + 1 reference)"},
 		Stub:     []string{"network (simulated transport)", "argument generator"},
 	})
@@ -166,6 +166,7 @@ func c12kvRender(outs []reflect.Value, sortLists bool) string {
 func c12kvRun(r *zsim.Run) {
 	timex.ZsimReset()
 	redis.ZsimResetClients()
+	r.RandMode = 2 // the per-address breakers never reject: the refused DELs of the injected fault are the only failures
 	o := r.Ops
 	nshards := 1 + o.Intn(3)
 	var shards []*zredis.Server
@@ -195,6 +196,56 @@ func c12kvRun(r *zsim.Run) {
 				s.M.FastForward(d)
 			}
 			ref.M.FastForward(d)
+			continue
+		}
+		if len(shards) >= 2 && r.Fault.Intn(12) == 11 {
+			// fault: one shard answers DEL with an error during a multi-key Del; the keys of the other shards are
+			// deleted all the same, whatever their position in the argument list, and the call reports the error
+			bad := shards[r.Fault.Intn(len(shards))]
+			var keys []string
+			for k := 0; k < 2+o.Intn(4); k++ {
+				keys = append(keys, c12kvKey(o, "Set"))
+			}
+			onBad, onGood := 0, 0
+			for _, k := range keys {
+				for _, s := range shards {
+					if s.M.Exists(k) {
+						if s == bad {
+							onBad++
+						} else {
+							onGood++
+						}
+					}
+				}
+			}
+			bad.FailReply = func(cmd string, args []string) string {
+				if cmd == "DEL" {
+					r.FaultFired("redis-error-reply")
+					return "ERR injected"
+				}
+				return ""
+			}
+			_, err := store.Del(keys...)
+			bad.FailReply = nil
+			r.Logf("Del(%s) with shard %s failing -> %v (named keys on it: %d, on healthy shards: %d)", strings.Join(keys, ","), bad.Addr, err, onBad, onGood)
+			if onBad > 0 && err == nil {
+				r.Failf("kv-delete-error-lost", "Del(%s): shard %s refused its DEL but the call returned no error", strings.Join(keys, ","), bad.Addr)
+				return
+			}
+			for _, k := range keys {
+				for _, s := range shards {
+					if s != bad && s.M.Exists(k) {
+						r.Failf("kv-multi-delete-incomplete", "Del(%s) while shard %s failed: key %s lives on the healthy shard %s and still exists", strings.Join(keys, ","), bad.Addr, k, s.Addr)
+						return
+					}
+				}
+				bad.M.Del(k) // repair by hand so that the comparison with the reference can go on
+			}
+			single.Del(keys...)
+			if onGood > 0 && onBad > 0 {
+				r.NonTrivial()
+				r.Probe("multi_delete_with_failing_shard")
+			}
 			continue
 		}
 		m := c12kvMethods[o.Intn(len(c12kvMethods))]
